@@ -182,7 +182,7 @@ def run(ctx, prog, only=None):
             return None if (p.took(vf[0], 'Ok') and strip(p.term(p.payload())) == ('field', vf[0].ret, 0, 'Ok')) else 'success not backed by verify'
         # result is map_err(verify(..)): opaque, acceptable when it wraps the verify result
         return None if is_sub(t, vf[0].ret) else 'result does not derive from the verification'
-    A.require('verify_jws/nonce-kid-scope-key-of-this-document', okp, r_vj, replay=REPLAY)
+    A.require('verify_jws/nonce-kid-scope-key-of-this-document', okp, r_vj, replay=[REPLAY, {'scenario': 'storage_signing'}])
     A.no_panic('verify_jws/no-panic', paths, replay=REPLAY)
     # the configured method id reaches resolution as a typed DIDUrl: the query built from it carries the DID, not only the fragment
     if only is None:
